@@ -5,7 +5,9 @@ from ..ref.rpath import C, D, F, I, N, Q, S, W
 from .alpha import LOOKALIKES, strings_upto
 
 INDEXISH = ["0", "1", "2", "10", "-1", "-0", "00", "01", "+1", " 1", "1 ", "1_0", "１", "1.0", "1e0", "-", "#0", "#a",
-            "~a", "~0", "~1", "~01"]
+            "~a", "~0", "~1", "~01",
+            # digits-only names beyond the index limit of pointer texts (legal member names; a match's pointer holds them)
+            "9007199254740992", "-9007199254740992", "123456789012345678901234567890"]
 
 
 def names(n=2):
